@@ -909,7 +909,7 @@ macro_rules! impl_tryfrom { ($($type:ty),+) => {
 
             fn try_from(int: $type) -> Result<Self, Self::Error> {
                 // Branch should be optimized at compile time
-                if size_of::<I>() >= size_of::<$type>() {
+                if N > 0 && size_of::<I>() >= size_of::<$type>() {
                     let mut data = [I::ZERO; N];
                     data[0] = I::cast_from(int);
                     return Ok(Bvf {
